@@ -63,9 +63,29 @@ var whitelist = []target{
 	{"pkg/uefi", "fileAttr", "GetAlignment"},
 	{"pkg/uefi", "fileAttr", "HasChecksum"},
 	{"pkg/uefi", "FirmwareVolume", "GetErasePolarity"},
+	{"pkg/uefi", "NVarAttribute", "IsValid"},
+	{"pkg/uefi", "NVar", "IsValid"},
+	{"pkg/uefi", "FlashRegion", "Valid"},
+	{"pkg/uefi", "FlashRegion", "BaseOffset"},
+	{"pkg/uefi", "FlashRegion", "EndOffset"},
+	{"pkg/uefi", "MEPartitionEntry", "OffsetIsValid"},
+	{"pkg/uefi", "", "FindSignature"},
 	{"pkg/intel/metadata/fit", "", "CalculatePhysAddrFromOffset"},
 	{"pkg/intel/metadata/fit", "", "CalculateOffsetFromPhysAddr"},
 	{"pkg/intel/metadata/fit", "", "CalculateTailOffsetFromPhysAddr"},
+	{"pkg/intel/metadata/fit", "Address64", "Pointer"},
+	{"pkg/intel/metadata/fit", "Address64", "Offset"},
+	{"pkg/intel/metadata/fit", "Address64", "SetOffset"},
+	{"pkg/intel/metadata/fit", "SizeM16", "Size"},
+	{"pkg/intel/metadata/fit", "Uint24", "Uint32"},
+	{"pkg/intel/metadata/fit", "Uint24", "SetUint32"},
+	{"pkg/intel/metadata/fit", "TypeAndIsChecksumValid", "IsChecksumValid"},
+	{"pkg/intel/metadata/fit", "TypeAndIsChecksumValid", "Type"},
+	{"pkg/intel/metadata/fit", "TypeAndIsChecksumValid", "SetType"},
+	{"pkg/intel/metadata/fit", "TypeAndIsChecksumValid", "SetIsChecksumValid"},
+	{"pkg/intel/metadata/fit", "EntryHeaders", "mostCommonGetDataSegmentSize"},
+	{"pkg/compression", "", "test86MSByte"},
+	{"pkg/compression", "", "x86Convert"},
 	{"pkg/amd/manifest", "FirmwareImage", "PhysAddrToOffset"},
 	{"pkg/amd/manifest", "", "fletcherCRC32"},
 	{"pkg/amd/manifest", "", "CalculateBiosDirectoryCheckSum"},
@@ -225,8 +245,9 @@ type translated struct {
 	coqName  string
 	monadic  bool
 	fuel     bool
-	nparams  int
-	recvFlds bool
+	recvFlds bool        // struct receiver: its fields are parameters
+	fields   []*fieldVar // those fields (paths relative to the receiver)
+	nouts    int         // number of values written through receiver/parameters
 }
 
 var done = map[types.Object]*translated{} // *types.Func -> its translation
@@ -241,6 +262,7 @@ func main() {
 	}
 	repo := os.Args[1]
 	l := &loader{repo: repo, module: moduleOf(repo), pkgs: map[string]*pkgInfo{}, loading: map[string]bool{}}
+	modulePath = l.module
 	var out bytes.Buffer
 	out.WriteString(header)
 	lastDir := ""
